@@ -118,7 +118,9 @@ class Spec:
                                'task that is due', 'c08:spin')
         if out.startswith('HARNESS-EXC') or out in ('bad-line',):
             return self.bad(i, f'harness failure {out}', 'c08:harness')
-        evs = [] if out in ('-', 'noop') or w[0] == 'dump' else out.split(';')
+        evs = [e for e in out.split(';') if e not in ('-', 'noop', '')]
+        if w[0] == 'dump':
+            evs = [e for e in evs if e.startswith('T:')]
         run_late = None
         start = self.now
         if w[0] == 'run':
@@ -161,6 +163,12 @@ class Spec:
         # observed events, in order
         for e in evs:
             tag, body = e[0], e[1:]
+            if tag == 'T':
+                what = body[1:].replace('_', ' ')
+                if what.startswith('DEAD'):
+                    return self.bad(i, f'a clock thread did not survive the script: {what}', 'c08:thread-died')
+                return self.bad(i, f'cleaning up after the script failed: {what} (clear/stop must cancel everything '
+                                   'pending and never raise; the clock threads must keep running)', 'c08:teardown')
             if tag == 'D':
                 return self.bad(i, f'clock thread died: {e}', 'c08:thread-died')
             if tag == 'E':
@@ -490,10 +498,20 @@ class Check(common.Check):
 
     # ---- runners ---------------------------------------------------------------------------
     def impl(self, cases):
-        res, err = common.run_impl('c08', 'run', {'cases': cases})
-        if res is None:
-            self.notes.append(err)
-        return res
+        """one process runs cases until a failure of the real code spoils its world (dead clock thread,
+        clear/stop raising ...); the rest continues in a fresh process"""
+        outs, restarts = [], 0
+        while len(outs) < len(cases):
+            res, err = common.run_impl('c08', 'run', {'cases': cases[len(outs):]})
+            if res is None or not res['outs']:
+                self.notes.append(err or 'impl returned nothing')
+                return None
+            outs.extend(res['outs'])
+            if len(outs) < len(cases):
+                restarts += 1
+        if restarts:
+            self.notes.append(f'{restarts} fresh impl processes after a spoilt world')
+        return outs
 
     def model(self, cases):
         lines = []
